@@ -17,6 +17,9 @@
 (* file-size limit).  The limit is an option of each Open: lim is the      *)
 (* limit in force, chosen anew from Limits by every Open after the first.  *)
 (*                                                                         *)
+(* (Further switches - LeftoverKept, LazyHint, AdoptBreaks - reproduce   *)
+(* seeded changes; their counterexamples are replayed on the engine as     *)
+(* directed tests, see lib/mbt.py.)                                        *)
 (* The constant Bug is a set of names of deviations that make the model    *)
 (* behave like the pinned tree did before the corresponding "fix:" commit; *)
 (* with Bug = {} the model is the intended design and all invariants hold. *)
@@ -320,12 +323,17 @@ MergeRm ==
   /\ st = "open" /\ merge.on /\ merge.ph = "rm"
   /\ IF mdir.ex /\ mdir.marker.nm # 0
      THEN mdir' = [mdir EXCEPT !.marker = NoMark] /\ UNCHANGED merge
-     ELSE mdir' = NoMdir /\ merge' = [merge EXCEPT !.ph = "mk"]
+     ELSE \* (Bug "LeftoverKept", seeded change C06-a: a directory without a marker is not removed)
+          /\ mdir' = IF Has("LeftoverKept") THEN mdir ELSE NoMdir
+          /\ merge' = [merge EXCEPT !.ph = "mk"]
   /\ UNCHANGED <<dir, dhint, durable, lock, st, active, index, total, reclaim, batch, adopt, pc, cur, ghost, ctrs>>
 
 MergeMk ==
   /\ st = "open" /\ merge.on /\ merge.ph = "mk"
-  /\ mdir' = [ex |-> TRUE, files |-> (0 :> <<>>), hint |-> <<>>, hintThere |-> TRUE, marker |-> NoMark]
+  \* a fresh directory with an empty first file and an empty hint file (Bug "LazyHint", seeded change C06-c: the hint
+  \* file is created only when the first record is rewritten); a directory that was kept is appended to
+  /\ mdir' = IF mdir.ex THEN [mdir EXCEPT !.hintThere = TRUE, !.files = IF 0 \in DOMAIN @ THEN @ ELSE @ @@ (0 :> <<>>)]
+             ELSE [ex |-> TRUE, files |-> (0 :> <<>>), hint |-> <<>>, hintThere |-> ~Has("LazyHint"), marker |-> NoMark]
   /\ merge' = [merge EXCEPT !.ph = "scan"]
   /\ UNCHANGED <<dir, dhint, durable, lock, st, active, index, total, reclaim, batch, adopt, pc, cur, ghost, ctrs>>
 
@@ -348,9 +356,10 @@ MergeScan ==
            ELSE IF rot /\ o2 >= merge.nm /\ ~Has("MergeClobbers") THEN
                 \* (fix) the output would reach a file that did not take part: give up, nothing is marked
                 merge' = NoMerge /\ UNCHANGED mdir
-           ELSE LET fl == IF rot THEN mdir.files @@ (o2 :> <<r2>>) ELSE [mdir.files EXCEPT ![o] = Append(@, r2)]
+           ELSE LET fl == IF o2 \in DOMAIN mdir.files THEN [mdir.files EXCEPT ![o2] = Append(@, r2)]
+                          ELSE mdir.files @@ (o2 :> <<r2>>)
                     pos == [f |-> o2, b |-> 0, o |-> Len(fl[o2]), s |-> r.s, v |-> r.v]
-                IN /\ mdir' = [mdir EXCEPT !.files = fl, !.hint = Append(@, [k |-> r.k, pos |-> pos])]
+                IN /\ mdir' = [mdir EXCEPT !.files = fl, !.hint = Append(@, [k |-> r.k, pos |-> pos]), !.hintThere = TRUE]
                    /\ merge' = [merge EXCEPT !.ri = @ + 1, !.out = o2]
   /\ UNCHANGED <<dir, dhint, durable, lock, st, active, index, total, reclaim, batch, adopt, pc, cur, ghost, ctrs>>
 
@@ -424,7 +433,9 @@ AdoptSafe ==
                  /\ durable' = [f \in Fids \cup {adopt.i} |-> IF f = adopt.i THEN Len(mdir.files[adopt.i]) ELSE durable[f]]
                  /\ mdir' = [mdir EXCEPT !.files = [g \in DOMAIN mdir.files \ {adopt.i} |-> mdir.files[g]]]
             ELSE UNCHANGED <<dir, durable, mdir>>
-         /\ adopt' = [adopt EXCEPT !.i = @ + 1] /\ UNCHANGED <<dhint, st, lock>>
+         \* (Bug "AdoptBreaks", seeded change C07-c: a rewritten file that is already gone ends the loop)
+         /\ adopt' = [adopt EXCEPT !.i = IF Has("AdoptBreaks") /\ adopt.i \notin DOMAIN mdir.files THEN adopt.cnt ELSE @ + 1]
+         /\ UNCHANGED <<dhint, st, lock>>
     [] adopt.ph = "files" /\ adopt.i >= adopt.cnt /\ adopt.i < adopt.nm ->
          /\ dir' = [f \in Fids \ {adopt.i} |-> dir[f]]
          /\ durable' = [f \in Fids \ {adopt.i} |-> durable[f]]
